@@ -170,7 +170,8 @@ def run(out, tier, rng, work):
                 'either peer from its k-th frame for EVERY k, each followed by a fresh transfer on the same pair; oracle: deliveries are the '
                 'exact payload or nothing, both session tables empty within 1.25 s (FD: 3 s) of the last frame (probes every 25 ms), timeout '
                 'abort present where asked, follow-up delivered intact; J1939-21 handler logs replayed on the Coq model; '
-                'non-trivial = a fault was injected')
+                'non-trivial = a fault was injected'
+                ' Addresses rotate incl. 0 on either side; when one stack falls silent for good the time-out abort must come from the other one.')
     out.assumptions = ['A1-A6 of DESIGN.md section 3; bound checked with 50 ms probe granularity plus jitter',
                        'J1939-22 is covered here by fault enumeration and oracle only (its Coq model belongs to C02)']
     C.std_proof_stage(out, 'C06', FILES)
